@@ -571,7 +571,51 @@ func genStopOrder(svc *pkg) {
 		{"svc.onPublish(svc.sess.Will)", "publish_will"},
 		{"svc.sessMgr.Del(", "delete_clean_session"},
 	}
-	body := src(fd.Body)
+	// the text of the body, with the calls of unexported helper methods of the service (that are not themselves one of
+	// the actions) replaced by the text of their bodies, two levels deep
+	isMark := func(t string) bool {
+		for _, m := range marks {
+			if strings.Contains(t, m.key) {
+				return true
+			}
+		}
+		return false
+	}
+	var expand func(fd *ast.FuncDecl, depth int) string
+	expand = func(fd *ast.FuncDecl, depth int) string {
+		text := src(fd.Body)
+		if depth >= 2 {
+			return text
+		}
+		rv := ""
+		if fd.Recv != nil && len(fd.Recv.List) == 1 && len(fd.Recv.List[0].Names) == 1 {
+			rv = fd.Recv.List[0].Names[0].Name
+		}
+		ast.Inspect(fd.Body, func(n ast.Node) bool {
+			ce, ok := n.(*ast.CallExpr)
+			if !ok {
+				return true
+			}
+			se, ok := ce.Fun.(*ast.SelectorExpr)
+			if !ok {
+				return true
+			}
+			id, ok := se.X.(*ast.Ident)
+			if !ok || id.Name != rv || isMark(src(ce)) || ast.IsExported(se.Sel.Name) {
+				return true
+			}
+			if _, cfd := svc.findMethod("service", se.Sel.Name); cfd != nil && cfd != fd && cfd.Body != nil {
+				inner := expand(cfd, depth+1)
+				if crv := cfd.Recv.List[0].Names; len(crv) == 1 && crv[0].Name != "svc" {
+					inner = strings.ReplaceAll(inner, crv[0].Name+".", "svc.")
+				}
+				text = strings.Replace(text, src(ce), inner, 1)
+			}
+			return true
+		})
+		return text
+	}
+	body := expand(fd, 0)
 	type pos struct {
 		at   int
 		name string
